@@ -773,10 +773,10 @@ def run(ctx: Ctx) -> None:
             ctx.failures.append(f)
 
     # ---- soup --------------------------------------------------------------------------------------
-    n_soup = 400 if ctx.tier == 'quick' else 20000
+    n_soup = 400 if ctx.tier == 'quick' else 12000
     done = 0
     for _ in range(n_soup):
-        if ctx.time_left() < (6 if ctx.tier == 'quick' else 400):
+        if ctx.time_left() < (6 if ctx.tier == 'quick' else 620):
             break
         text = gen_soup(ctx.rng, ctx.rng.randrange(1, 9))
         verdict, detail = junk_outcome(rig, 'route', text)
